@@ -35,6 +35,7 @@ func checkC30(c *Ctx, r *Report) {
 	r.rule("C30.R3", "streamDownloadWithVerify sends 200/bytes only after size and SHA-256 verification of exactly what it buffered", 6)
 	r.rule("C30.R4", "handleHTTPDownload validates digest shape and size bounds before the stream path and forwards them unchanged", 3)
 	r.rule("C30.R5", "the digest compared is the digest declared: no code reachable from Resolve / Unwrap / DecodeEnvelope / EnvelopeChecksum rewrites Envelope.SHA256, Checksum or ChecksumAlg (hex case folding of the same field excepted)", 1)
+	r.Explanation += " (R5) nothing reachable from Resolve, Unwrap, DecodeEnvelope or EnvelopeChecksum stores into Envelope.SHA256, Checksum or ChecksumAlg other than a case-folded copy of the same field."
 	checkDigestNotRewritten(m, r, "C30.R5")
 
 	envCk := pkgLFS + ".EnvelopeChecksum"
